@@ -47,6 +47,7 @@ var (
 	SigAllKeysMustBeEqualErr = cashu.Error{Detail: "all public keys must be the same for SIG_ALL", Code: NUT11ErrCode}
 	SigAllOnlySwap           = cashu.Error{Detail: "SIG_ALL can only be used in /swap operation", Code: NUT11ErrCode}
 	NSigsMustBeEqualErr      = cashu.Error{Detail: "all n_sigs must be the same for SIG_ALL", Code: NUT11ErrCode}
+	SigAllKindMustBeEqualErr = cashu.Error{Detail: "all spending conditions must be of the same kind and lock for SIG_ALL", Code: NUT11ErrCode}
 )
 
 type P2PKWitness struct {
